@@ -1,7 +1,15 @@
 // UNIT op interpreter for nni_msgq (C18): the real nni_msgq_* with real tagged messages and
 // real aios.  After every operation the aios that left the queue's wait lists are waited for
 // (nni_aio_wait) and their results collected.
+//
+// C18N (pollable levels of the queue): after the line `norefresh` (per case, cleared by `reset`) the
+// two nni_pollable objects and their descriptors are fetched ONCE, right after nni_msgq_init, and
+// every result line ends with ` snd=<p_raised> rcv=<p_raised> ps=<poll(2)> pr=<poll(2)>` read WITHOUT
+// calling nni_msgq_get_sendable/recvable again (those run nni_msgq_run_notify and would repair a
+// stale level).  Extra ops: `levels` (no API call), `getsnd` / `getrcv` (the two getters as API
+// operations), `nbput <aio> <tag>` / `nbget <aio>` (the same aio operations with a zero timeout).
 #include "qcommon.h"
+#include <poll.h>
 
 #define NAIO 8
 static nni_msgq *mq;
@@ -9,6 +17,20 @@ static nni_aio   aio[NAIO];
 static int       kind[NAIO]; // 0 idle, 1 put pending, 2 get pending
 static unsigned  atag[NAIO];
 static nni_atomic_int ncb;
+static bool          norefresh;
+static nni_pollable *psnd, *prcv;
+static int           sfd = -1, rfd = -1;
+
+static int
+polled(int fd)
+{
+	struct pollfd pf = { fd, POLLIN, 0 };
+	if (fd < 0) {
+		return (9);
+	}
+	int n = poll(&pf, 1, 0);
+	return (n < 0 ? 8 : (n > 0 && (pf.revents & POLLIN) != 0) ? 1 : 0);
+}
 
 static void
 cb(void *arg)
@@ -72,6 +94,15 @@ static void
 tail(void)
 {
 	nni_pollable *s, *r;
+	if (norefresh) {
+		if (mq == NULL || psnd == NULL || prcv == NULL) {
+			printf(" cap=- snd=- rcv=- ps=- pr=-\n");
+			return;
+		}
+		printf(" cap=%d snd=%d rcv=%d ps=%d pr=%d\n", nni_msgq_cap(mq), (int) nni_atomic_get_bool(&psnd->p_raised),
+		    (int) nni_atomic_get_bool(&prcv->p_raised), polled(sfd), polled(rfd));
+		return;
+	}
 	nni_msgq_get_sendable(mq, &s);
 	nni_msgq_get_recvable(mq, &r);
 	printf(" cap=%d snd=%d rcv=%d\n", nni_msgq_cap(mq), (int) nni_atomic_get_bool(&s->p_raised),
@@ -92,9 +123,11 @@ teardown(void)
 				kind[i] = 0;
 			}
 		}
-		nni_msgq_fini(mq);
+		nni_msgq_fini(mq); // closes the descriptors of the two pollables
 		mq = NULL;
 	}
+	psnd = prcv = NULL;
+	sfd = rfd = -1;
 	drop_all();
 }
 
@@ -118,12 +151,18 @@ main(void)
 		}
 		if (strcmp(vw[0], "reset") == 0) {
 			teardown();
-			fail_in = -1;
+			fail_in   = -1;
+			norefresh = false;
 			printf("reset\n");
 			fflush(stdout);
 			continue;
 		}
 		if (strcmp(vw[0], "verbose") == 0) {
+			printf("ok\n");
+			continue;
+		}
+		if (strcmp(vw[0], "norefresh") == 0) {
+			norefresh = true;
 			printf("ok\n");
 			continue;
 		}
@@ -135,6 +174,14 @@ main(void)
 		if (strcmp(vw[0], "init") == 0 && vn == 2) {
 			teardown();
 			int rv = nni_msgq_init(&mq, (unsigned) strtoul(vw[1], NULL, 10));
+			if (rv == 0 && norefresh) {
+				// the way core/socket.c sock_get_fd obtains a descriptor, done once
+				if (nni_msgq_get_sendable(mq, &psnd) != 0 || nni_msgq_get_recvable(mq, &prcv) != 0 ||
+				    nni_pollable_getfd(psnd, &sfd) != 0 || nni_pollable_getfd(prcv, &rfd) != 0) {
+					printf("bad-op\n");
+					continue;
+				}
+			}
 			printf("%d ev=- freed=-", rv);
 			tail();
 		} else if (mq == NULL) {
@@ -156,7 +203,16 @@ main(void)
 			collect();
 			put_freed();
 			tail();
-		} else if (strcmp(vw[0], "aput") == 0 && vn == 3) {
+		} else if (strcmp(vw[0], "levels") == 0 && vn == 1) {
+			printf("0 ev=- freed=-");
+			tail();
+		} else if ((strcmp(vw[0], "getsnd") == 0 || strcmp(vw[0], "getrcv") == 0) && vn == 1) {
+			nni_pollable *p  = NULL;
+			bool          sn = vw[0][3] == 's';
+			int           rv = sn ? nni_msgq_get_sendable(mq, &p) : nni_msgq_get_recvable(mq, &p);
+			printf("%d ev=%s freed=-", rv, (norefresh && p != (sn ? psnd : prcv)) ? "BADPTR" : "-");
+			tail();
+		} else if ((strcmp(vw[0], "aput") == 0 || strcmp(vw[0], "nbput") == 0) && vn == 3) {
 			int      i   = atoi(vw[1]);
 			unsigned tag = (unsigned) strtoul(vw[2], NULL, 10);
 			if (i < 0 || i >= NAIO) {
@@ -173,6 +229,7 @@ main(void)
 				continue;
 			}
 			nni_aio_reset(&aio[i]);
+			nni_aio_set_timeout(&aio[i], vw[0][0] == 'n' ? NNG_DURATION_ZERO : NNG_DURATION_INFINITE);
 			nni_aio_set_msg(&aio[i], m);
 			kind[i] = 1;
 			atag[i] = tag;
@@ -181,7 +238,7 @@ main(void)
 			collect();
 			put_freed();
 			tail();
-		} else if (strcmp(vw[0], "aget") == 0 && vn == 2) {
+		} else if ((strcmp(vw[0], "aget") == 0 || strcmp(vw[0], "nbget") == 0) && vn == 2) {
 			int i = atoi(vw[1]);
 			if (i < 0 || i >= NAIO) {
 				printf("bad-op\n");
@@ -192,6 +249,7 @@ main(void)
 				continue;
 			}
 			nni_aio_reset(&aio[i]);
+			nni_aio_set_timeout(&aio[i], vw[0][0] == 'n' ? NNG_DURATION_ZERO : NNG_DURATION_INFINITE);
 			nni_aio_set_msg(&aio[i], NULL);
 			kind[i] = 2;
 			nni_msgq_aio_get(mq, &aio[i]);
